@@ -534,8 +534,10 @@ EXPLANATION = (
     "modular) and proved to raise nothing but PestGrammarSyntaxError, to keep 0 <= start <= pos <= len(grammar) and to "
     "create only tokens that start inside the text; the grammar Parser's token cursor never raises IndexError; "
     "PestGrammarError._error_context is proved total for every token start in [0, len] and to report the line/column of "
-    "that position (C14's Spec). unescape_*: C12. The rest of Parser.from_grammar (recursive descent over tokens, "
-    "Expression constructors, optimizer) is outside the dialect: bounded corpus stand-in."
+    "that position (C14's Spec). PestGrammarError.__init__ / message / detailed_message / __str__ are proved never to raise "
+    "and to show that line:column, the source line and the caret column (contracts/c11_render.py). unescape_*: C12. The "
+    "grammar Parser's recursive descent over tokens is proved to end normally or in PestGrammarSyntaxError (C10's "
+    "executions). Expression constructors and the optimizer are outside the dialect: bounded corpus stand-in."
 )
 TRUSTED = [
     "pyvc executor's model of the Python subset; z3/cvc5",
@@ -543,7 +545,7 @@ TRUSTED = [
     "C14's splitlines BRIDGE; str.rstrip opaque",
 ]
 ASSUMPTIONS = ["partial correctness: termination of the scanner's state loop and recursion depth on nested parentheses are not decided"]
-BOUNDED = ["Parser.from_grammar end to end (Expression constructors, optimizer, message rendering; the grammar Parser's recursive descent is proved): corpus of bundled grammars, every truncation, single-character mutations and token soups (quick: ~6k texts; thorough: ~60k) - stand-in, not proved"]
+BOUNDED = ["Parser.from_grammar end to end (Expression constructors, optimizer; the grammar Parser's recursive descent and the error rendering are proved): corpus of bundled grammars, every truncation (LF and CRLF), single-character mutations, token soups, 270 rule-reference cycles under a wall-clock limit, lone surrogates, multi-line texts with LF / CRLF / CR ends, 5 deeply nested texts (listed finding) (quick: ~7k texts; thorough: ~60k) - stand-in, not proved"]
 
 
 # the token-adjacency clauses belong to C10 (they are what its token-layer proof assumes of scanner output)
